@@ -144,7 +144,7 @@ class Refusals(BObl):
             for n in (2, 3):
                 for indb in (False, True):
                     yield {'family': 'composite-inline', 'type': typ, 'n': n, 'indb': indb}
-        for how in ('never-added', 'deleted', 'deleted-generic'):
+        for how in ('never-added', 'deleted', 'deleted-generic', 'deleted-by-equal-twin', 'deleted-generic-by-equal-twin'):
             yield {'family': 'table-get_refs', 'how': how}
         for how in ('never-added', 'delete_column', 'delete_column(pos)', 'table-detached'):
             yield {'family': 'column-get_refs', 'how': how}
@@ -266,6 +266,16 @@ class Refusals(BObl):
             elif r['how'] == 'deleted-generic':
                 db = _db_with(a, b)
                 db.delete(a)
+            elif r['how'] in ('deleted-by-equal-twin', 'deleted-generic-by-equal-twin'):
+                # removal asked for through an equal but distinct object: the table that leaves the database (the
+                # stored one; it is the only equal candidate) is the one that must be detached
+                db = _db_with(a, b)
+                a2, _b2, _x = self._tables()
+                if a2 is a or not (a2 == a):
+                    raise _Setup('twin tables are not equal-but-distinct')
+                (db.delete_table if r['how'] == 'deleted-by-equal-twin' else db.delete)(a2)
+                if any(t is a for t in db.tables):
+                    raise _Setup('the stored table was not removed')
         except Exception as e:
             raise _Setup(f'{exc_name(e)}: {e}')
         return self._expect(lambda: a.get_refs(), (UnknownDatabaseError,), 'table-get_refs',
